@@ -23,10 +23,7 @@ func Creator(ctx context.Context, name string, options map[string]string) (physi
 		return nil, physical.Schema{}, fmt.Errorf("couldn't stat file: %w", err)
 	}
 
-	pr, err := parquet.OpenFile(f, stat.Size(), &parquet.FileConfig{
-		SkipPageIndex:    true,
-		SkipBloomFilters: true,
-	})
+	pr, err := parquet.OpenFile(f, stat.Size(), parquet.SkipPageIndex(true), parquet.SkipBloomFilters(true))
 	if err != nil {
 		return nil, physical.Schema{}, fmt.Errorf("couldn't open parquet file: %w", err)
 	}
